@@ -341,9 +341,21 @@ fn one_corruption(ctx: &mut Ctx) {
             let fault = match kind {
                 "server-wrong-bytes" => NetFault::FlipBit(gen::draw(1 << 20) as usize),
                 "server-error-page" => NetFault::ErrorPage,
+                // half of the short bodies end exactly where a stored chunk ends (a cut that leaves
+                // nothing half-received behind), the others after a few bytes
+                _ if gen::chance(1, 2) && !ra.dict.descriptors.is_empty() => {
+                    let n = 1 + gen::draw(3) as usize;
+                    let ends: Vec<u64> = (0..n)
+                        .map(|_| {
+                            let d = &ra.dict.descriptors[gen::draw(ra.dict.descriptors.len() as u32) as usize];
+                            ra.chunk_data_offset + d.archive_offset + d.archive_size as u64
+                        })
+                        .collect();
+                    NetFault::EarlyEofAtOneOf(ends)
+                }
                 _ => NetFault::EarlyEof(gen::draw(64) as usize),
             };
-            let at = gen::draw(6) as usize;
+            let at = if matches!(fault, NetFault::EarlyEofAtOneOf(_)) { 2 + gen::draw(3) as usize } else { gen::draw(6) as usize };
             let mut script = vec![None; at];
             script.push(Some(fault.clone()));
             extra.net_script = script;
